@@ -109,6 +109,10 @@ fn main() {
             families::curated_status(&args);
             return;
         }
+        "probe-emit" => {
+            tokenlevel::probe_emit(&args);
+            return;
+        }
         "gen" => {
             gen::gen(&args);
             return;
